@@ -290,11 +290,23 @@ static void clientThread(uint16_t port, int idx, uint32_t seed)
     size_t off = 0;
     while (off < all.size())
     {
+      if (all.size() - off < 16 && memcmp(all.data() + off, "MDUO", std::min<size_t>(4, all.size() - off)) == 0)
+      {
+        fail("C03", tag + " end-of-stream in the middle of a frame header (queued bytes cut off by the FIN)");
+        fail("C01", tag + " frame header truncated at offset " + std::to_string(off));
+        break;
+      }
       if (all.size() - off < 16 || memcmp(all.data() + off, "MDUO", 4) != 0) { fail("C01", tag + " frame boundary lost at offset " + std::to_string(off) + " of " + std::to_string(all.size())); break; }
       int tid = all[off + 4];
       uint32_t seq, len;
       memcpy(&seq, all.data() + off + 8, 4); memcpy(&len, all.data() + off + 12, 4);
-      if (tid < 1 || tid > 2 || all.size() - off - 16 < len) { fail("C01", tag + " truncated or corrupt frame at offset " + std::to_string(off)); break; }
+      if (tid < 1 || tid > 2) { fail("C01", tag + " corrupt frame header at offset " + std::to_string(off)); break; }
+      if (all.size() - off - 16 < len)
+      {
+        fail("C03", tag + " end-of-stream in the middle of frame " + std::to_string(tid) + "/" + std::to_string(seq) + " (queued bytes cut off by the FIN)");
+        fail("C01", tag + " frame " + std::to_string(tid) + "/" + std::to_string(seq) + " truncated at offset " + std::to_string(off));
+        break;
+      }
       if (seq != next[tid]) { fail("C01", tag + " thread " + std::to_string(tid) + ": frame " + std::to_string(seq) + " arrived where " + std::to_string(next[tid]) + " was due (lost, repeated or reordered)"); break; }
       bool ok = true;
       for (uint32_t j = 0; j < len && ok; ++j) ok = all[off + 16 + j] == static_cast<char>((tid * 131 + seq * 31 + j * 7) & 255);
